@@ -179,7 +179,7 @@ func checkContain(root string, c containCase) string {
 	if anyOutside && err == nil {
 		return "no-error: an entry name is absolute or climbs out through '..' but no error was reported"
 	}
-	if err != nil && c.Pre == "" && !anyOutside && plainNames(c.Names) {
+	if err != nil && !anyOutside && plainNames(c.Names) && nothingInTheWay(c.Pre, c.Names) {
 		return fmt.Sprintf("spurious-error: every entry name is a plain path inside the directory, nothing is in the way, and yet: %v", err)
 	}
 	if err == nil {
@@ -198,6 +198,23 @@ func checkContain(root string, c containCase) string {
 		}
 	}
 	return ""
+}
+
+// nothingInTheWay: the pre-existing content is a plain file (or none) that no
+// name is, lies below, or has as a directory on its way.
+func nothingInTheWay(pre string, names []string) bool {
+	if pre == "" {
+		return true
+	}
+	if strings.Contains(pre, "=>") {
+		return false
+	}
+	for _, n := range names {
+		if n == pre || strings.HasPrefix(n, pre+"/") || strings.HasPrefix(pre, n+"/") {
+			return false
+		}
+	}
+	return true
 }
 
 // plainNames: every name is already clean (no empty, "." or ".." segment, no
